@@ -443,8 +443,9 @@ class Check:
         self.cov["known_findings_replayed"] = sorted(self.known_hits)
         ev = {"property_id": self.prop, "tier": self.tier, "seed": self.seed, "level": "proof", "coverage": self.cov,
               "assumptions": self.assumptions, "wall_s": round(time.time() - self.t0, 2), "violations": nviol}
-        os.makedirs(os.path.join(ROOT, "evidence"), exist_ok=True)
-        json.dump(ev, open(os.path.join(ROOT, "evidence", f"{self.prop}.json"), "w"), indent=1, default=str)
+        evdir = os.environ.get("VERIF_EVIDENCE_DIR") or os.path.join(ROOT, "evidence")     # (runs against a scratch tree keep their evidence apart)
+        os.makedirs(evdir, exist_ok=True)
+        json.dump(ev, open(os.path.join(evdir, f"{self.prop}.json"), "w"), indent=1, default=str)
         for l in lines:
             print(l)
         print(f"[{self.prop}] tier={self.tier} seed={self.seed} obligations={self.cov['obligations']} discharged={self.cov['discharged']} "
